@@ -8,6 +8,14 @@
   given as a text (code points), where both hold by construction.
   `devinfo_after_connect` composes the codecs with the handshake model: the `Device` /
   `DeviceChannel` data the client holds after `connect()`.
+  Exact bytes vs. meaning (second review R4-B-FA3): `chinfo_rt` / `chinfo_rt_text` state the bytes
+  the device-side encoder of /repo emits today (no NUL terminator).  The property allows the name
+  "with or without a trailing NUL terminator" — that side is `chinfo_trailing_nul` (decoding with a
+  terminator / padding after the name).  An encoder that appends a terminator therefore breaks the
+  correspondence with this model (reported as a broken obligation) but not the property: the
+  independent oracle (harness/props/C06.py) judges a response by the values an independent decoder
+  and the client read from it, not byte by byte.  One consequence it does report: a name of exactly
+  65524 bytes fills the frame and leaves no room for a terminator.
 -/
 import NxsModel.Info
 import NxsModel.Describe
